@@ -2,7 +2,7 @@
    the value solve returns for the solver's model, and (small grids) the set of
    projected models against the specification [shape]. *)
 From Coq Require Import ZArith List Bool String Arith.
-From FrameModel Require Import Num.QcTac PB.Expr PB.Cnf PB.Amo PB.Robdd PB.Codify PB.Sat Cases.CmpC07
+From FrameModel Require Import Num.QcTac PB.Expr PB.Cnf PB.Amo PB.Robdd PB.Codify PB.Sat Cases.Cmp Cases.CmpC07
   RectSearch.Coords RectSearch.Names RectSearch.Encode RectSearch.Shapes.
 Import ListNotations.
 Local Open Scope nat_scope.
@@ -48,6 +48,14 @@ Definition c08_check (mode : border_mode) (inp : problem) (k : nat) (factor rati
                     (if o_sat o then Some (fun v => existsb (var_eqb v) (o_true o)) else None))
                  (o_sat o) (o_cost1 o) (o_rects o)
   end.
+
+(* the quality solve returns (one float division: 2 roundings allowed; exact when the model says 0),
+   and the theoretical area main hands to solve *)
+Definition c08_quality_check (inp : problem) (factor ratio : Qc) (tba : Z) (sat : bool) (trues : list var)
+    (q : Qc) : bool :=
+  Z.eqb tba (theoretical_area inp factor) &&
+  let qm := quality_of inp factor ratio tba (if sat then Some (fun v => existsb (var_eqb v) trues) else None) in
+  qclose 2 qm qm q.
 
 (* ---- the projected models of a small instance against the specification ---- *)
 Definition sigma_bits (M : list (list bool)) (i b : nat) : bool := nth b (nth i M []) false.
